@@ -554,7 +554,7 @@ func runGroup(ctx0 *core.Ctx, ctx *reporter, cases []*POCase, locales []string, 
 	}
 	for _, cat := range cats {
 		for _, o := range occs {
-			if cat.alias && !o.c.isPlural() {
+			if skipRender(ctx0, o, cat) {
 				continue
 			}
 			jobs <- job{o, cat}
@@ -687,6 +687,20 @@ func checkEntry(ctx *reporter, c *POCase, desc string, e *poEntry, node *ast.Msg
 		ok = viol("id-reference-differs-from-compiled-id", fmt.Sprintf("id=%d in the catalogue, %d in the compiled bundle", e.id, node.ID))
 	}
 	return ok
+}
+
+// skipRender: renderings that would add nothing.  Nothing about a plural-free
+// message depends on the locale of the catalogue, so the alias catalogues
+// are for plural messages only, and in the (much larger) thorough tier the
+// plural-free messages are rendered with the en catalogues only.
+func skipRender(ctx0 *core.Ctx, o *occ, cat *catalogue) bool {
+	if o.c.isPlural() {
+		return false
+	}
+	if cat.alias {
+		return true
+	}
+	return ctx0.Thorough() && cat.loc != "" && cat.loc != "en"
 }
 
 func renderGo(tofu *soyhtml.Tofu, tmpl string, cat *catalogue, n int) (out string, err error) {
@@ -880,6 +894,9 @@ func renderJS(ctx *reporter, work string, reg *template.Registry, cats []*catalo
 			job.JS = append(job.JS, buf.String())
 		}
 		for _, o := range occs {
+			if skipRender(ctx.ctx, o, cat) {
+				continue
+			}
 			for _, ex := range o.c.Exp {
 				job.Renders = append(job.Renders, jsRender{Tmpl: o.tmpl, Data: jsData(ex.N)})
 				refs[cat.name] = append(refs[cat.name], ref{o, ex.N})
